@@ -47,9 +47,9 @@ theorem removeChildE_frame {sf : Flags} {sk : CompKind} {name : Key} {acc acc' :
   · cases h
 
 /-- one iteration of the key loop only touches its own key -/
-theorem mergeStep_frame (rec : Node → Node → Except Err (Node × Bool)) {sf : Flags} {sk : CompKind}
+theorem mergeStep_frame {exc : List Path} (rec : Node → Node → Except Err (Node × Bool)) {sf : Flags} {sk : CompKind}
     (hsk : sk.isDictFam = true) {acc acc' : List (Key × Node)} {kv : Key × Node}
-    (h : mergeStep rec sf sk acc kv = .ok acc') (k : Key) (hne : kv.1 ≠ k) :
+    (h : mergeStep rec sf sk exc acc kv = .ok acc') (k : Key) (hne : kv.1 ≠ k) :
     alookup k acc' = alookup k acc := by
   simp only [mergeStep] at h
   split at h
@@ -73,16 +73,16 @@ theorem mergeStep_frame (rec : Node → Node → Except Err (Node × Bool)) {sf 
             · exact setChild_frame hsk h k hne
 
 /-- the key loop only touches the keys of the newer mapping -/
-theorem mergeLoop_frame (rec : Node → Node → Except Err (Node × Bool)) {sf : Flags} {sk : CompKind}
+theorem mergeLoop_frame {exc : List Path} (rec : Node → Node → Except Err (Node × Bool)) {sf : Flags} {sk : CompKind}
     (hsk : sk.isDictFam = true) : ∀ (ocs acc acc' : List (Key × Node)),
-    mergeLoop rec sf sk acc ocs = .ok acc' → ∀ k, alookup k ocs = none → alookup k acc' = alookup k acc
+    mergeLoop rec sf sk exc acc ocs = .ok acc' → ∀ k, alookup k ocs = none → alookup k acc' = alookup k acc
   | [], acc, acc', h, k, _ => by
     simp only [mergeLoop] at h; injection h with h; rw [h]
   | (k', v) :: rest, acc, acc', h, k, hk => by
     have hk' : ¬ k' = k ∧ alookup k rest = none := by
       by_cases e : k' = k <;> simp_all [alookup]
     simp only [mergeLoop] at h
-    cases hs : mergeStep rec sf sk acc (k', v) with
+    cases hs : mergeStep rec sf sk exc acc (k', v) with
     | error e => simp [hs] at h
     | ok acc1 =>
       simp only [hs] at h
